@@ -56,6 +56,9 @@ func (this *Addr) Deserialization(source *common.ZeroCopySource) error {
 		return io.ErrUnexpectedEOF
 	}
 
+	if count > comm.MAX_ADDR_NODE_CNT {
+		count = comm.MAX_ADDR_NODE_CNT
+	}
 	for i := 0; i < int(count); i++ {
 		var addr comm.PeerAddr
 		addr.Time, eof = source.NextInt64()
@@ -71,11 +74,6 @@ func (this *Addr) Deserialization(source *common.ZeroCopySource) error {
 
 		this.NodeAddrs = append(this.NodeAddrs, addr)
 	}
-
-	if count > comm.MAX_ADDR_NODE_CNT {
-		count = comm.MAX_ADDR_NODE_CNT
-	}
-	this.NodeAddrs = this.NodeAddrs[:count]
 
 	return nil
 }
